@@ -302,6 +302,7 @@ Hypothesis Hsetup : prefix_setup pip (cidr_bytes 16 L) (Z.of_N P) = Ok st0.
 Lemma setup_pinv : pinv st0 L P /\ a6_ip (ps_alloc st0) = pip /\ ps_recs st0 = [].
 Proof.
   destruct Hpool as (H1 & H2 & H3 & H4 & H5 & H6). unfold prefix_setup in Hsetup.
+  destruct (negb (lenb pip 16)); [discriminate|].
   destruct ((Z.of_N P <? 0) || (128 <? Z.of_N P))%Z; [discriminate|].
   destruct (new6_valid pip L P H1 H2 H3 H4 H5 H6) as (a & En & Va & Ba). rewrite En in Hsetup. injection Hsetup as <-.
   split; [|split; [|reflexivity]].
@@ -410,4 +411,12 @@ Theorem pd_hintless_returns_known now L P st c hints : pinv st L P -> hints = []
 Proof.
   intros I Hh Hne. destruct (one_iapd_hintless now L P st c hints I Hh Hne) as (st' & out & E & A & O & K & _).
   exists st', out. repeat split; assumption.
+Qed.
+
+(* C19 for the prefix plugin's pool argument: set-up accepts only a 16-byte (IPv6) pool address -
+   an IPv4 subnet, which the 128-bit prefix arithmetic cannot index, is rejected at start-up *)
+Theorem prefix_setup_ok_ipv6 pip pmask size st : prefix_setup pip pmask size = Ok st -> length pip = 16%nat.
+Proof.
+  unfold prefix_setup, lenb. destruct (Nat.eqb (length pip) 16) eqn:E; cbn [negb]; [|discriminate].
+  intros _. apply Nat.eqb_eq. exact E.
 Qed.
